@@ -15,7 +15,8 @@ RULE = ("correspondence: shape_name / shape_representation / render (hooks) agai
         "container-rooted shape, or a shape of depth>=2; distinct = distinct case line")
 ASSUMPTIONS = ["member names restricted to printable ASCII for model correspondence (convert_case / codegen are modelled "
                "on that domain); other names are exercised on the implementation-side oracle only",
-               "collection names are file names (no '/'); OUT_DIR exists; unix paths",
+               "collection names are file names (no '/'); OUT_DIR exists; unix paths; OUT_DIR values that are not UTF-8 and source files of 100 kB .. 1.5 MB are included "
+               "(the former on the implementation-side oracle only)",
                "known classes decided by the extracted predicates plain_dir / plain_name (F14) and by "
                "'different shapes, equal shape_name' (KF4: the refuted injectivity clause has no true carve-out)",
                "json_shape 0.5.1 (the version the build crate links) is observed through gen_infer051; a panic inside it "
@@ -91,6 +92,19 @@ def run(ctx):
     alltexts = sorted({t for ss in sets + genlib.BAD_SOURCE_SETS for t in ss})
     for t, r in zip(alltexts, ctx.impl(["serde_ok\t" + (hexs(t) or "") for t in alltexts])):
         valid[t] = r == "BOOL 1"
+    # OUT_DIR values that are not UTF-8 (possible on unix) and source files larger than any fixed buffer:
+    # judged by the implementation-side oracle (path the macro reads, header + returned text, determinism);
+    # big sources also go through the model (inference result observed through gen_infer051 on the full text)
+    odd_dirs = [b"out-\xff\xfe".decode("utf-8", "surrogateescape"), b"\xe9t\xe9".decode("utf-8", "surrogateescape")]
+    for od in odd_dirs:
+        for ss, r in list(zip(sets, raw))[:4]:
+            cases.append((ss, 'odd', od, [("T", t) for t in ss], r))
+    big_sets = genlib.BIG_SOURCE_SETS
+    _, big_raw = genlib.infer051(ctx, big_sets)
+    for ss, r in zip(big_sets, big_raw):
+        cases.append((ss, 'big', 'out', [("T", t) for t in ss], r))
+    ctx.notes["odd_out_dir_cases"] = 2 * 4
+    ctx.notes["big_source_cases"] = [sum(len(t) for t in ss) for ss in big_sets]
     for name, d in (('collection', 'out'), ('a.b', '-')):
         cases.append((None, name, d, [("M", None)], "ERR"))
         cases.append((None, name, d, [("D", None)], "ERR"))
@@ -167,6 +181,8 @@ def run(ctx):
         # ---- correspondence
         if ss is not None and infres.startswith("OK ") and not genlib.printable_shape(parse_sh(infres[3:])):
             continue                                   # outside the modelled domain
+        if d in odd_dirs:
+            continue                                   # non-UTF-8 directory: implementation-side oracle only
         sc["cases"] += 1
         ctx.evaluations += 1
         ok = True
